@@ -30,7 +30,7 @@ Print Assumptions lifecycle_no_nested_collection.
    — no destructor runs twice and memory is released exactly as often as the destructor ran *)
 Theorem lifecycle_finalised_at_most_once :
   forall (h : list ev) (x : nat),
-    let s := run gc_mitems_rule gc_rem_pending_finalises gc_sweep_nulls_first gc_set_defers_in_sweep h in
+    let s := run gc_mitems_rule gc_rem_pending_finalises gc_sweep_nulls_first gc_set_defers_in_sweep nopro h in
     fin_count s x <= 1 /\ free_count s x = fin_count s x.
 Proof. exact (finalised_at_most_once_sw _ _ _ _ eq_refl eq_refl eq_refl). Qed.
 Print Assumptions lifecycle_finalised_at_most_once.
@@ -39,7 +39,7 @@ Print Assumptions lifecycle_finalised_at_most_once.
    sweep is left with a non-empty pending list *)
 Theorem lifecycle_fuel_adequate :
   forall h : list ev,
-    let s := run gc_mitems_rule gc_rem_pending_finalises gc_sweep_nulls_first gc_set_defers_in_sweep h in
+    let s := run gc_mitems_rule gc_rem_pending_finalises gc_sweep_nulls_first gc_set_defers_in_sweep nopro h in
     oof s = false /\ pend s = [].
 Proof. exact (fuel_adequate_sw _ _ _ _ eq_refl eq_refl eq_refl). Qed.
 Print Assumptions lifecycle_fuel_adequate.
@@ -48,11 +48,11 @@ Print Assumptions lifecycle_fuel_adequate.
    once, at once *)
 Theorem lifecycle_explicit_delete_finalises :
   forall (h : list ev) (k : kind) (o : nat),
-    no_alloc_in_stop_window gc_mitems_rule gc_rem_pending_finalises gc_sweep_nulls_first gc_set_defers_in_sweep h = true ->
-    let s := run gc_mitems_rule gc_rem_pending_finalises gc_sweep_nulls_first gc_set_defers_in_sweep h in
+    no_alloc_in_stop_window gc_mitems_rule gc_rem_pending_finalises gc_sweep_nulls_first gc_set_defers_in_sweep nopro h = true ->
+    let s := run gc_mitems_rule gc_rem_pending_finalises gc_sweep_nulls_first gc_set_defers_in_sweep nopro h in
     torn s = false -> live s o = true -> kind_of s o = Some k ->
     (k = KRaw \/ running s = true) ->
-    let s' := run gc_mitems_rule gc_rem_pending_finalises gc_sweep_nulls_first gc_set_defers_in_sweep (h ++ [EDel k o]) in
+    let s' := run gc_mitems_rule gc_rem_pending_finalises gc_sweep_nulls_first gc_set_defers_in_sweep nopro (h ++ [EDel k o]) in
     fin_count s' o = 1 /\ free_count s' o = 1.
 Proof. exact (explicit_delete_finalises_sw _ _ _ _ eq_refl eq_refl eq_refl). Qed.
 Print Assumptions lifecycle_explicit_delete_finalises.
@@ -61,11 +61,11 @@ Print Assumptions lifecycle_explicit_delete_finalises.
    once, every object that o reaches through ownership (chains of Boxes of any length, cycles) *)
 Theorem lifecycle_delete_reaches_owned :
   forall (h : list ev) (k : kind) (o x : nat),
-    no_alloc_in_stop_window gc_mitems_rule gc_rem_pending_finalises gc_sweep_nulls_first gc_set_defers_in_sweep h = true ->
-    let s := run gc_mitems_rule gc_rem_pending_finalises gc_sweep_nulls_first gc_set_defers_in_sweep h in
+    no_alloc_in_stop_window gc_mitems_rule gc_rem_pending_finalises gc_sweep_nulls_first gc_set_defers_in_sweep nopro h = true ->
+    let s := run gc_mitems_rule gc_rem_pending_finalises gc_sweep_nulls_first gc_set_defers_in_sweep nopro h in
     torn s = false -> live s o = true -> kind_of s o = Some k -> running s = true ->
     Reach s o x ->
-    let s' := run gc_mitems_rule gc_rem_pending_finalises gc_sweep_nulls_first gc_set_defers_in_sweep (h ++ [EDel k o]) in
+    let s' := run gc_mitems_rule gc_rem_pending_finalises gc_sweep_nulls_first gc_set_defers_in_sweep nopro (h ++ [EDel k o]) in
     fin_count s' x = 1 /\ free_count s' x = 1.
 Proof. exact (delete_reaches_owned_sw _ _ _ _ eq_refl eq_refl eq_refl). Qed.
 Print Assumptions lifecycle_delete_reaches_owned.
@@ -75,27 +75,27 @@ Print Assumptions lifecycle_delete_reaches_owned.
    scenario) and every set of marks *)
 Theorem lifecycle_collect_reaches_owned :
   forall (h : list ev) (order marks : list nat) (b x : nat),
-    let s := run gc_mitems_rule gc_rem_pending_finalises gc_sweep_nulls_first gc_set_defers_in_sweep h in
+    let s := run gc_mitems_rule gc_rem_pending_finalises gc_sweep_nulls_first gc_set_defers_in_sweep nopro h in
     torn s = false -> running s = true ->
     In b (map fst (reg s)) -> is_root s b = false -> ~ In b marks ->
     Reach s b x ->
-    let s' := run gc_mitems_rule gc_rem_pending_finalises gc_sweep_nulls_first gc_set_defers_in_sweep (h ++ [ECollect order marks]) in
+    let s' := run gc_mitems_rule gc_rem_pending_finalises gc_sweep_nulls_first gc_set_defers_in_sweep nopro (h ++ [ECollect order marks]) in
     fin_count s' x = 1 /\ free_count s' x = 1.
 Proof. exact (collect_reaches_owned_sw _ _ _ _ eq_refl eq_refl eq_refl). Qed.
 Print Assumptions lifecycle_collect_reaches_owned.
 
 Example lifecycle_reach_inhabited :
-  Reach (run mitems_rule true true true sample_history) 1 2 /\ Reach (run mitems_rule true true true sample_history) 3 4.
+  Reach (run mitems_rule true true true nopro sample_history) 1 2 /\ Reach (run mitems_rule true true true nopro sample_history) 3 4.
 Proof. exact sample_reach. Qed.
 
 (* after teardown (thread exit / Cello_Exit) every managed object ever allocated has been
    finalised exactly once and its memory released exactly once *)
 Theorem lifecycle_teardown_complete :
   forall (h : list ev) (order : list nat) (x : nat) (b : bool),
-    no_alloc_in_stop_window gc_mitems_rule gc_rem_pending_finalises gc_sweep_nulls_first gc_set_defers_in_sweep h = true ->
-    let s := run gc_mitems_rule gc_rem_pending_finalises gc_sweep_nulls_first gc_set_defers_in_sweep h in
+    no_alloc_in_stop_window gc_mitems_rule gc_rem_pending_finalises gc_sweep_nulls_first gc_set_defers_in_sweep nopro h = true ->
+    let s := run gc_mitems_rule gc_rem_pending_finalises gc_sweep_nulls_first gc_set_defers_in_sweep nopro h in
     torn s = false -> info s x = Some (KManaged, b) ->
-    let s' := run gc_mitems_rule gc_rem_pending_finalises gc_sweep_nulls_first gc_set_defers_in_sweep (h ++ [ETeardown order]) in
+    let s' := run gc_mitems_rule gc_rem_pending_finalises gc_sweep_nulls_first gc_set_defers_in_sweep nopro (h ++ [ETeardown order]) in
     fin_count s' x = 1 /\ free_count s' x = 1.
 Proof. exact (teardown_complete_sw _ _ _ _ eq_refl eq_refl eq_refl). Qed.
 Print Assumptions lifecycle_teardown_complete.
@@ -108,12 +108,12 @@ Print Assumptions lifecycle_teardown_complete.
    teardown — has been finalised exactly once and released exactly once *)
 Theorem lifecycle_refines_spec :
   forall (h : list ev) (x : nat),
-    bad (run gc_mitems_rule gc_rem_pending_finalises gc_sweep_nulls_first gc_set_defers_in_sweep h) = false ->
+    bad (run gc_mitems_rule gc_rem_pending_finalises gc_sweep_nulls_first gc_set_defers_in_sweep nopro h) = false ->
     s_bad (sp_run h) = false ->
-    no_alloc_or_del_in_stop_window gc_mitems_rule gc_rem_pending_finalises gc_sweep_nulls_first gc_set_defers_in_sweep h = true ->
+    no_alloc_or_del_in_stop_window gc_mitems_rule gc_rem_pending_finalises gc_sweep_nulls_first gc_set_defers_in_sweep nopro h = true ->
     In x (s_must (sp_run h)) ->
-    fin_count (run gc_mitems_rule gc_rem_pending_finalises gc_sweep_nulls_first gc_set_defers_in_sweep h) x = 1 /\
-    free_count (run gc_mitems_rule gc_rem_pending_finalises gc_sweep_nulls_first gc_set_defers_in_sweep h) x = 1.
+    fin_count (run gc_mitems_rule gc_rem_pending_finalises gc_sweep_nulls_first gc_set_defers_in_sweep nopro h) x = 1 /\
+    free_count (run gc_mitems_rule gc_rem_pending_finalises gc_sweep_nulls_first gc_set_defers_in_sweep nopro h) x = 1.
 Proof. exact (refines_spec_sw _ _ _ _ eq_refl eq_refl eq_refl). Qed.
 Print Assumptions lifecycle_refines_spec.
 
@@ -134,18 +134,18 @@ Proof. exact sample_spec_must. Qed.
 (* non-vacuity with allocating destructors: the objects 10 and 11 allocated by the destructor of 1
    are managed objects of the machine; teardown finalises them *)
 Example lifecycle_alloc_inhabited :
-  let s := run mitems_rule true true true alloc_history in
-  no_alloc_or_del_in_stop_window mitems_rule true true true alloc_history = true /\ bad s = false /\ torn s = false /\
+  let s := run mitems_rule true true true nopro alloc_history in
+  no_alloc_or_del_in_stop_window mitems_rule true true true nopro alloc_history = true /\ bad s = false /\ torn s = false /\
   fin_count s 1 = 1 /\ fin_count s 2 = 1 /\
   info s 10 = Some (KManaged, false) /\ info s 11 = Some (KManaged, false) /\
-  fin_count (run mitems_rule true true true (alloc_history ++ [ETeardown []])) 11 = 1.
+  fin_count (run mitems_rule true true true nopro (alloc_history ++ [ETeardown []])) 11 = 1.
 Proof. exact alloc_history_ok. Qed.
 
 (* non-vacuity of the hypotheses of the theorems above *)
 Example lifecycle_hypotheses_inhabited :
-  let s := run mitems_rule true true true sample_history in
-  no_alloc_or_del_in_stop_window mitems_rule true true true sample_history = true /\
-  no_alloc_in_stop_window mitems_rule true true true sample_history = true /\
+  let s := run mitems_rule true true true nopro sample_history in
+  no_alloc_or_del_in_stop_window mitems_rule true true true nopro sample_history = true /\
+  no_alloc_in_stop_window mitems_rule true true true nopro sample_history = true /\
   torn s = false /\ bad s = false /\ running s = true /\
   live s 1 = true /\ kind_of s 1 = Some KManaged /\ info s 6 = Some (KManaged, false) /\
   live s 3 = true /\ kind_of s 3 = Some KRoot /\ fin_count s 7 = 1 /\ fin_count s 8 = 1.
@@ -154,8 +154,8 @@ Proof. exact sample_history_ok. Qed.
 (* D18, pinned code (GC_Rem_Ptr only clears the pending entry): an object owned by a Box swept in
    the same collection and met first is never finalised, not even at teardown *)
 Theorem lifecycle_d18_refuted_pinned :
-  let s := run mitems_rule false false true d18_history in
-  no_alloc_or_del_in_stop_window mitems_rule false false true d18_history = true /\ bad s = false /\ torn s = true /\
+  let s := run mitems_rule false false true nopro d18_history in
+  no_alloc_or_del_in_stop_window mitems_rule false false true nopro d18_history = true /\ bad s = false /\ torn s = true /\
   info s 2 = Some (KManaged, false) /\ fin_count s 2 = 0 /\ free_count s 2 = 0.
 Proof. exact LifecycleProofs.lifecycle_d18_refuted_pinned. Qed.
 Print Assumptions lifecycle_d18_refuted_pinned.
@@ -163,8 +163,8 @@ Print Assumptions lifecycle_d18_refuted_pinned.
 (* D22, pinned GC_Set (collection started from inside the running sweep by an allocating
    destructor): the nested sweep takes over the one pending list; object 1 is never finalised *)
 Theorem lifecycle_d22_refuted_pinned :
-  let s := run mitems_rule true true false d22_history in
-  no_alloc_or_del_in_stop_window mitems_rule true true false d22_history = true /\ bad s = false /\ torn s = true /\
+  let s := run mitems_rule true true false nopro d22_history in
+  no_alloc_or_del_in_stop_window mitems_rule true true false nopro d22_history = true /\ bad s = false /\ torn s = true /\
   info s 1 = Some (KManaged, false) /\ fin_count s 1 = 0 /\ free_count s 1 = 0.
 Proof. exact LifecycleProofs.lifecycle_d22_refuted_pinned. Qed.
 Print Assumptions lifecycle_d22_refuted_pinned.
@@ -172,14 +172,14 @@ Print Assumptions lifecycle_d22_refuted_pinned.
 (* only half of the repair (the sweep calls the destructor before clearing the entry): a Box that
    owns itself is finalised twice *)
 Theorem lifecycle_sweep_order_refuted_half_repair :
-  let s := run mitems_rule true false true selfbox_history in bad s = false /\ fin_count s 1 = 2 /\ free_count s 1 = 2.
+  let s := run mitems_rule true false true nopro selfbox_history in bad s = false /\ fin_count s 1 = 2 /\ free_count s 1 = 2.
 Proof. exact LifecycleProofs.lifecycle_sweep_order_refuted_half_repair. Qed.
 Print Assumptions lifecycle_sweep_order_refuted_half_repair.
 
 (* F2 (open finding): without the stop-window hypothesis teardown leaves an object behind *)
 Theorem lifecycle_stop_window_refuted :
-  let s := run mitems_rule true true true stop_window_history in
-  no_alloc_in_stop_window mitems_rule true true true stop_window_history = false /\ bad s = false /\ torn s = true /\
+  let s := run mitems_rule true true true nopro stop_window_history in
+  no_alloc_in_stop_window mitems_rule true true true nopro stop_window_history = false /\ bad s = false /\ torn s = true /\
   info s 1 = Some (KManaged, false) /\ fin_count s 1 = 0.
 Proof. exact LifecycleProofs.lifecycle_stop_window_refuted. Qed.
 Print Assumptions lifecycle_stop_window_refuted.
@@ -194,10 +194,10 @@ Print Assumptions lifecycle_stop_window_refuted.
    exactly once by the time the process is gone *)
 Theorem lifecycle_terminate_complete :
   forall (r : route) (h : list ev) (order : list nat) (x : nat) (b : bool),
-    no_alloc_in_stop_window gc_mitems_rule gc_rem_pending_finalises gc_sweep_nulls_first gc_set_defers_in_sweep h = true ->
-    let s := run gc_mitems_rule gc_rem_pending_finalises gc_sweep_nulls_first gc_set_defers_in_sweep h in
+    no_alloc_in_stop_window gc_mitems_rule gc_rem_pending_finalises gc_sweep_nulls_first gc_set_defers_in_sweep nopro h = true ->
+    let s := run gc_mitems_rule gc_rem_pending_finalises gc_sweep_nulls_first gc_set_defers_in_sweep nopro h in
     torn s = false -> info s x = Some (KManaged, b) ->
-    let s' := terminate gc_mitems_rule gc_rem_pending_finalises gc_sweep_nulls_first gc_set_defers_in_sweep
+    let s' := terminate gc_mitems_rule gc_rem_pending_finalises gc_sweep_nulls_first gc_set_defers_in_sweep nopro
                         main_registers_atexit main_tears_down_after_return exception_error_exits r order s in
     (fin_count s' x = 1 /\ free_count s' x = 1) /\ torn s' = true.
 Proof. exact (terminate_complete_sw _ _ _ _ _ _ _ eq_refl eq_refl eq_refl eq_refl eq_refl eq_refl). Qed.
@@ -206,30 +206,30 @@ Print Assumptions lifecycle_terminate_complete.
 (* a wrapper that tears down only after Cello_Main has returned (no atexit): exit() below main and an
    uncaught throw leave every managed object behind; returning from main is fine *)
 Theorem lifecycle_terminate_refuted_without_atexit :
-  let s := terminate mitems_rule true true true false true true RExit [] (run mitems_rule true true true exit_history) in
-  no_alloc_in_stop_window mitems_rule true true true exit_history = true /\ bad s = false /\ torn s = false /\
+  let s := terminate mitems_rule true true true nopro false true true RExit [] (run mitems_rule true true true nopro exit_history) in
+  no_alloc_in_stop_window mitems_rule true true true nopro exit_history = true /\ bad s = false /\ torn s = false /\
   info s 1 = Some (KManaged, false) /\ fin_count s 1 = 0 /\ fin_count s 2 = 0 /\
-  fin_count (terminate mitems_rule true true true false true true RThrow [] (run mitems_rule true true true exit_history)) 1 = 0 /\
-  fin_count (terminate mitems_rule true true true false true true RReturn [] (run mitems_rule true true true exit_history)) 1 = 1.
+  fin_count (terminate mitems_rule true true true nopro false true true RThrow [] (run mitems_rule true true true nopro exit_history)) 1 = 0 /\
+  fin_count (terminate mitems_rule true true true nopro false true true RReturn [] (run mitems_rule true true true nopro exit_history)) 1 = 1.
 Proof. exact terminate_refuted_without_atexit. Qed.
 Print Assumptions lifecycle_terminate_refuted_without_atexit.
 
 (* an Exception_Error that can leave without exit() (_Exit, abort, ...): uncaught exceptions — a
    signal turned into an exception, any throw after one — leave the managed objects behind *)
 Theorem lifecycle_terminate_refuted_error_without_exit :
-  let s := terminate mitems_rule true true true true false false RSigUncaught [] (run mitems_rule true true true exit_history) in
+  let s := terminate mitems_rule true true true nopro true false false RSigUncaught [] (run mitems_rule true true true nopro exit_history) in
   bad s = false /\ torn s = false /\ info s 1 = Some (KManaged, false) /\ fin_count s 1 = 0 /\ fin_count s 2 = 0 /\
-  fin_count (terminate mitems_rule true true true true false false RSigCaughtThrow [] (run mitems_rule true true true exit_history)) 1 = 0 /\
-  fin_count (terminate mitems_rule true true true true false false RSigCaughtReturn [] (run mitems_rule true true true exit_history)) 1 = 1 /\
-  fin_count (terminate mitems_rule true true true true false false RSigCaughtExit [] (run mitems_rule true true true exit_history)) 1 = 1.
+  fin_count (terminate mitems_rule true true true nopro true false false RSigCaughtThrow [] (run mitems_rule true true true nopro exit_history)) 1 = 0 /\
+  fin_count (terminate mitems_rule true true true nopro true false false RSigCaughtReturn [] (run mitems_rule true true true nopro exit_history)) 1 = 1 /\
+  fin_count (terminate mitems_rule true true true nopro true false false RSigCaughtExit [] (run mitems_rule true true true nopro exit_history)) 1 = 1.
 Proof. exact terminate_refuted_error_without_exit. Qed.
 Print Assumptions lifecycle_terminate_refuted_error_without_exit.
 
 Example lifecycle_terminate_inhabited :
-  no_alloc_in_stop_window mitems_rule true true true exit_history = true /\ torn (run mitems_rule true true true exit_history) = false /\
-  info (run mitems_rule true true true exit_history) 1 = Some (KManaged, false) /\
-  fin_count (terminate mitems_rule true true true true false true RExit [] (run mitems_rule true true true exit_history)) 2 = 1 /\
-  fin_count (terminate mitems_rule true true true true false true RSigUncaught [] (run mitems_rule true true true exit_history)) 2 = 1.
+  no_alloc_in_stop_window mitems_rule true true true nopro exit_history = true /\ torn (run mitems_rule true true true nopro exit_history) = false /\
+  info (run mitems_rule true true true nopro exit_history) 1 = Some (KManaged, false) /\
+  fin_count (terminate mitems_rule true true true nopro true false true RExit [] (run mitems_rule true true true nopro exit_history)) 2 = 1 /\
+  fin_count (terminate mitems_rule true true true nopro true false true RSigUncaught [] (run mitems_rule true true true nopro exit_history)) 2 = 1.
 Proof. exact exit_history_ok. Qed.
 
 (* The theorems that tie the abstract registry of this machine to C17's concrete robin-hood registry
@@ -237,3 +237,54 @@ Proof. exact exit_history_ok. Qed.
    lifecycle_over_concrete_registry_partial) are in coq/Properties_C06_glue.v: they are statements about
    C17's model, which exists only when C17's own translator can read the tree; props/C06.py re-checks
    them on every run where it can (see design.d/C06.md, "Glue"). *)
+
+(* ---- destructors that open a stop/start window of their own (seeded C06-r7-2) ---- *)
+(* GC_Start / GC_Stop only flip gc->running (read off the C text) *)
+Theorem lifecycle_start_stop_keep_pending : gc_start_stop_keep_pending = true.
+Proof. exact eq_refl. Qed.
+Print Assumptions lifecycle_start_stop_keep_pending.
+
+(* a window opened from inside a running sweep (by the destructor the finaliser loop is calling) leaves
+   that sweep's pending list alone — and the registry, the running flag and the ledger *)
+Theorem lifecycle_window_in_sweep :
+  forall s : st, in_sweep s = true ->
+    let s' := window gc_start_stop_keep_pending s in
+    pend s' = pend s /\ reg s' = reg s /\ running s' = running s /\ log s' = log s.
+Proof. exact window_in_sweep_leaves_pending. Qed.
+Print Assumptions lifecycle_window_in_sweep.
+
+(* the machine the check runs next to the library: the destructors of the objects `win` bracket with
+   stop/start before anything else they do (allocations, a Box's del) — in threshold sweeps, explicit
+   collections, deletes and teardown.  Exactly-once still holds: never twice for ANY history; and after
+   teardown every managed object has been finalised and released exactly once. *)
+Theorem lifecycle_window_exactly_once :
+  forall (win : nat -> bool) (h : list ev) (x : nat),
+    let pro := dwin win gc_start_stop_keep_pending in
+    let s := run gc_mitems_rule gc_rem_pending_finalises gc_sweep_nulls_first gc_set_defers_in_sweep pro h in
+    (fin_count s x <= 1 /\ free_count s x = fin_count s x) /\ oof s = false /\ pend s = [] /\
+    forall (order : list nat) (b : bool),
+      no_alloc_in_stop_window gc_mitems_rule gc_rem_pending_finalises gc_sweep_nulls_first gc_set_defers_in_sweep pro h = true ->
+      torn s = false -> info s x = Some (KManaged, b) ->
+      let s' := run gc_mitems_rule gc_rem_pending_finalises gc_sweep_nulls_first gc_set_defers_in_sweep pro (h ++ [ETeardown order]) in
+      fin_count s' x = 1 /\ free_count s' x = 1.
+Proof.
+  intros win h x. cbv zeta. change gc_start_stop_keep_pending with true.
+  unfold no_alloc_in_stop_window.
+  rewrite !(run_ext _ _ _ _ _ (dwin_keep_id win)).
+  split; [apply lifecycle_finalised_at_most_once|].
+  split; [apply lifecycle_fuel_adequate|]. split; [apply lifecycle_fuel_adequate|].
+  intros order b Hn. rewrite (all_from_ext _ _ _ _ _ (dwin_keep_id win)) in Hn.
+  rewrite ?(run_ext _ _ _ _ _ (dwin_keep_id win)).
+  exact (lifecycle_teardown_complete h order x b Hn).
+Qed.
+Print Assumptions lifecycle_window_exactly_once.
+
+(* a GC_Start that forgets the pending list it finds (C06-r7-2): two unreachable objects, the first
+   brackets — the second is never finalised, not by the sweep and not at teardown *)
+Theorem lifecycle_window_refuted_when_start_drops_pending :
+  let h := [ENew KManaged false 1 [] []; ENew KManaged false 2 [] [1]; ECollect [1; 2] []; ETeardown []] in
+  let s := run mitems_rule true true true (dwin (Nat.eqb 1) false) h in
+  bad s = false /\ torn s = true /\ fin_count s 1 = 1 /\ fin_count s 2 = 0 /\
+  fin_count (run mitems_rule true true true (dwin (Nat.eqb 1) true) h) 2 = 1.
+Proof. vm_compute. repeat split; reflexivity. Qed.
+Print Assumptions lifecycle_window_refuted_when_start_drops_pending.
